@@ -13,14 +13,34 @@ Two kinds of scripts, two Lean components:
                 of different methods are open at the same time and the replies are delivered in any
                 order, interleaved piece by piece
 
-Four interfaces: `hello` (the repository's generated test interface), `store` (c14_iface.py) and two
-with Thrift service inheritance, `derived` (c14_derived.py: Archive extends Store) and `derived2`
-(c14_derived2.py: Vault extends Archive).  The Thrift compiler leaves the `<m>_args` / `<m>_result`
-classes of an inherited method in the module of the service that declares it; the harness finds them
-through the modules' own METHODS / BASE (`owner_module`), the code under test through
-`MessageSerializer._FindClass`.  The Lean configuration is per method (name, nonvoid, declared), so
-the models need nothing for this.
+Four interfaces of one family: `hello` (the repository's generated test interface), `store`
+(c14_iface.py) and two with Thrift service inheritance, `derived` (c14_derived.py: Archive extends
+Store) and `derived2` (c14_derived2.py: Vault extends Archive).  The Thrift compiler leaves the
+`<m>_args` / `<m>_result` classes of an inherited method in the module of the service that declares
+it; the harness finds them through the modules' own METHODS / BASE (`owner_module`), the code under
+test through `MessageSerializer._FindClass`.  The Lean configuration is per method (name, nonvoid,
+declared), so the models need nothing for this.
+
+A second, UNRELATED family: `otherbase` (c14_other_base.py: service Journal) and `other`
+(c14_other.py: Ledger extends Journal).  Nine of its eleven method names are also method names of
+the first family — with other argument types / field ids, return types and declared exceptions.
+
+  kind: two     ONE process, TWO clients: a serializer sink for an interface of the first family and
+                one for an interface of the second, each built the way a client builds it (its own
+                MessageDispatcher / ThriftSerializerSink.Builder / connections), used in ONE script:
+                calls and replies of both interleaved, either family first, same-named methods on
+                both sides.  Mapping to Lean: two instances of the component `thriftshared`, one per
+                serializer, each with the per-method configuration of ITS interface; every call /
+                reply is judged with the configuration of its own serializer's method.  A case
+                carries one component instance, so the script names the side whose history it
+                reports (`judge`); the generator and the sweep always emit a script together with
+                its twin (same events, the other side judged), and in both runs the real code
+                performs the operations of both sides.
+
+Every script starts from freshly loaded `scales.thrift.serializer` / `scales.thrift.sink` modules
+(`isolate`): what a script observes never depends on which scripts the worker process ran before.
 """
+import importlib
 import collections
 import random
 import socket as _socket
@@ -43,7 +63,9 @@ TRUSTED = [
     'hand-written generated-style interface harness/props/c14_iface.py (spec-driven read/write calling the '
     'protocol methods the generated code calls) and the two services extending it, c14_derived.py / '
     'c14_derived2.py, laid out as the Thrift compiler lays out `service X extends Y`: own Iface(Y.Iface), '
-    'Processor(Y.Processor, Iface, TProcessor), `<m>_args`/`<m>_result` of the own methods only',
+    'Processor(Y.Processor, Iface, TProcessor), `<m>_args`/`<m>_result` of the own methods only; a second, unrelated '
+    'family in the same layout, c14_other_base.py (service Journal) / c14_other.py (Ledger extends Journal), sharing '
+    'nothing with the first but the struct plumbing and nine method NAMES',
     'fake socket handle (recv/recv_into/send/sendall) delivering the reply stream in pieces',
     'several calls at once: a trivial router sink below the real ThriftSerializerSink stands in for balancer + pool; '
     'it forwards each call to the real SocketTransportSink (own ScalesSocket, own fake handle) the script names',
@@ -61,13 +83,23 @@ ASSUMPTIONS = [
     'several calls at once: a serial connection carries one transaction at a time (a call is sent on a connection '
     'with no pending call which the server has not closed; guaranteed by the pool, C08) and the methods of an '
     'interface have distinct names; no deadline is set on the calls',
+    'two clients in one process (kind two): each serializer is one instance of the several-calls component with the '
+    'configuration of its own interface, and a case reports the history of one of them (the script is run once per '
+    'side; both runs perform the operations of both clients).  The theorems are per serializer: its observations are '
+    'a function of its own interface and its own calls.  That nothing reaches a serializer from another serializer of '
+    'the process is checked on the real code by these scripts; the model has no process-wide state to prove it about',
 ]
 RULE = ('scripts drawn from the seeded generator (30% of them with 2-5 calls open at once on 2-4 connections) plus an '
-        'exhaustive sweep of every two-piece split and every truncation point of ten fixed reply frames and of every '
+        'exhaustive sweep of every two-piece split and every truncation point of twelve fixed reply frames and of every '
         'ordered pair of Store methods open at once with the replies in both orders; about a quarter of the generated '
         'scripts (single calls and several calls at once) use an interface with Thrift service inheritance (one and '
         'two levels), own and inherited methods equally likely, and every (own, inherited) pair of methods of those '
-        'interfaces is open at once in either call order and either reply order; distinct = distinct (cfg, op list) where the op list '
+        'interfaces is open at once in either call order and either reply order; about a fifth of the generated scripts use TWO '
+        'serializers in one process, one for an interface of the Store family and one for an interface of the unrelated '
+        'Journal/Ledger family (same method names, other signatures), calls and replies of both interleaved, either family '
+        'first, each script twice (once per judged side), plus a sweep over every method name the two families share x '
+        'which family is used first x which side is judged x reply order / one after the other; '
+        'distinct = distinct (cfg, op list) where the op list '
         'carries arguments, reply and the concrete piece sizes; non-trivial = anything beyond an ASCII call '
         'answered by a normal value delivered in one piece')
 
@@ -161,7 +193,9 @@ def iface(name):
     hello     the repository's generated test interface
     store     c14_iface:    service Store
     derived   c14_derived:  service Archive extends Store      (one level of service inheritance)
-    derived2  c14_derived2: service Vault extends Archive      (two levels)"""
+    derived2  c14_derived2: service Vault extends Archive      (two levels)
+    otherbase c14_other_base: service Journal                  (second, unrelated family)
+    other     c14_other:      service Ledger extends Journal"""
     if name == 'hello':
         from test.scales.thrift.gen_py.hello import Hello
         return Hello, Hello.Iface, Hello.Processor
@@ -171,6 +205,12 @@ def iface(name):
     if name == 'derived2':
         from props import c14_derived2
         return c14_derived2, c14_derived2.Iface, c14_derived2.Processor
+    if name == 'other':
+        from props import c14_other
+        return c14_other, c14_other.Iface, c14_other.Processor
+    if name == 'otherbase':
+        from props import c14_other_base
+        return c14_other_base, c14_other_base.Iface, c14_other_base.Processor
     from props import c14_iface
     return c14_iface, c14_iface.Iface, c14_iface.Processor
 
@@ -180,6 +220,11 @@ STORE_METHODS = ['ping', 'put', 'find', 'count', 'has', 'size', 'echo']
 DERIVED_OWN = ['flush', 'drop', 'latest', 'tally']
 DERIVED2_OWN = ['seal', 'purge', 'sealed']
 DERIVED_IFACES = ('derived', 'derived2')
+# the second family (c14_other_base.py, c14_other.py)
+JOURNAL_METHODS = ['ping', 'put', 'find', 'count', 'size', 'total']
+LEDGER_OWN = ['latest', 'flush', 'drop', 'seal', 'balance']
+FAMILY = {'hello': 1, 'store': 1, 'derived': 1, 'derived2': 1, 'otherbase': 2, 'other': 2}
+INHERITING = ('derived', 'derived2', 'other')        # interfaces with `extends`: the serializer's lookup walks modules
 
 
 def owner_module(mod, method):
@@ -312,12 +357,15 @@ def gen_method(rng, name):
         return rng.choice(DERIVED_OWN if rng.random() < 0.5 else STORE_METHODS)
     if name == 'derived2':
         return rng.choice(rng.choice([DERIVED2_OWN, DERIVED_OWN, STORE_METHODS]))
+    if name == 'other':
+        return rng.choice(LEDGER_OWN if rng.random() < 0.5 else JOURNAL_METHODS)
     return rng.choice(IFACE_METHODS[name])
 
 
 def gen_single(rng, tier):
     r = rng.random()
-    name = 'hello' if r < 0.22 else 'store' if r < 0.74 else 'derived' if r < 0.89 else 'derived2'
+    name = ('hello' if r < 0.20 else 'store' if r < 0.68 else 'derived' if r < 0.82 else 'derived2' if r < 0.92
+            else 'other' if r < 0.98 else 'otherbase')
     method = gen_method(rng, name)
     mod, _, _ = iface(name)
     nrounds = rng.choice([1, 1, 1, 2, 3])
@@ -338,12 +386,15 @@ EXH = [
     ('derived2', 'put', [[2, ['b', True]]], ['raise', 1, [[1, ['s', '6e6f']]]]),
     ('derived2', 'latest', [[1, ['s', 'c3a9']]], ['raise', 2, []]),
     ('derived2', 'sealed', [[1, ['i64', 2 ** 40]]], ['ret', ['b', False]]),
+    # the second family: an inherited method (argument field ids 2 and 4) and an own one
+    ('other', 'find', [[2, ['i64', -7]], [4, ['b', True]]], ['raise', 1, [[1, ['i64', 9]], [2, ['s', 'c3a9']]]]),
+    ('other', 'drop', [[1, ['s', '00ff']]], ['ret', ['i32', -2]]),
 ]
 
 
 def exhaustive_single(tier, shard, shards):
-    """every split of the reply stream into two pieces and every truncation point, for ten
-    fixed transactions (five of them on the interfaces with service inheritance), on both socket
+    """every split of the reply stream into two pieces and every truncation point, for twelve
+    fixed transactions (seven of them on the interfaces with service inheritance), on both socket
     paths (quick: the wrapped path only)"""
     k = 0
     for (name, method, args, handler) in EXH:
@@ -620,6 +671,16 @@ def install():
     _installed.append(1)
 
 
+def isolate():
+    """every script starts from freshly loaded serializer / serializer-sink modules: whatever a
+    script left behind in them (module- or class-level) is gone, so that what a script observes —
+    and the replay of a script on its own — never depends on the scripts the worker ran before"""
+    import scales.thrift.serializer
+    import scales.thrift.sink
+    importlib.reload(scales.thrift.serializer)
+    importlib.reload(scales.thrift.sink)
+
+
 class Ep(object):
     host, port = 'srv', 9090
 
@@ -671,6 +732,7 @@ def canon_outcome(ar, mod, method):
 def run_single(script):
     import rt
     install()
+    isolate()
     from thrift.protocol.TBinaryProtocol import TBinaryProtocolFactory, TBinaryProtocolAcceleratedFactory
     from scales.constants import SinkProperties
     from scales.dispatch import MessageDispatcher
@@ -805,9 +867,11 @@ def run_single(script):
 
 def iface_tags(name, mod, method, tags):
     """service inheritance: which interface, and where the called method's classes live"""
-    if name not in DERIVED_IFACES:
+    if FAMILY[name] == 2:
+        tags.add('iface-other-family')
+    if name not in INHERITING:
         return
-    tags.add('iface-derived')
+    tags.add('iface-derived' if name in DERIVED_IFACES else 'iface-other-derived')
     if name == 'derived2':
         tags.add('iface-derived2')
     d = inheritance_depth(mod, method)
@@ -867,7 +931,9 @@ def nontrivial(case):
 SHARED = 'thriftshared'
 IFACE_METHODS = {'hello': HELLO_METHODS, 'store': STORE_METHODS,
                  'derived': STORE_METHODS + DERIVED_OWN,                       # inherited + own
-                 'derived2': STORE_METHODS + DERIVED_OWN + DERIVED2_OWN}
+                 'derived2': STORE_METHODS + DERIVED_OWN + DERIVED2_OWN,
+                 'otherbase': JOURNAL_METHODS,
+                 'other': JOURNAL_METHODS + LEDGER_OWN}
 MULTI_ONES = 48
 
 
@@ -877,7 +943,8 @@ def gen_handler(rng, tier, mod, method):
 
 def gen_multi(rng, tier):
     r = rng.random()
-    name = 'hello' if r < 0.10 else 'store' if r < 0.72 else 'derived' if r < 0.88 else 'derived2'
+    name = ('hello' if r < 0.10 else 'store' if r < 0.66 else 'derived' if r < 0.80 else 'derived2' if r < 0.91
+            else 'other' if r < 0.98 else 'otherbase')
     mod, _, _ = iface(name)
     ncalls = rng.choice([2, 2, 2, 3, 3, 4, 5])
     nconn = rng.choice([2, 2, 3])
@@ -934,6 +1001,27 @@ EXH_ANSWER = {
     'purge': ([[1, ['st', [[2, ['i64', 9]]]]]], ['raise', 1, [[2, ['i32', 250]]]]),
     'sealed': ([[1, ['i64', -2 ** 63]]], ['ret', ['b', True]]),
 }
+# the second family (Journal / Ledger): a value or a declared exception the same-named method of the first family
+# cannot produce
+EXH_ANSWER_OTHER = {
+    'ping': ([], ['ret', None]),
+    'put': ([[1, ['st', [[1, ['i64', 2 ** 40]], [2, ['s', 'c3a9']], [3, ['st', [[1, ['i64', -5]], [2, ['i32', 2]]]]]]]]],
+            ['ret', ['i64', -2 ** 40]]),
+    'find': ([[2, ['i64', 7]], [4, ['b', True]]], ['raise', 1, [[1, ['i64', 250]], [2, ['s', '6163']]]]),
+    'count': ([[1, ['s', '6163']]], ['ret', ['b', True]]),
+    'size': ([[1, ['i32', 17]]], ['raise', 1, [[1, ['s', '6163']], [2, ['st', [[1, ['i64', 1]]]]]]]),
+    'total': ([[1, ['s', '']], [2, ['st', [[2, ['i32', -1]]]]]], ['ret', ['st', [[1, ['i64', 3]], [2, ['i32', 2]]]]]),
+    'latest': ([[1, ['i64', -1]]], ['ret', ['st', [[1, ['i64', 8]], [4, ['s', '00ff']]]]]),
+    'flush': ([[1, ['b', True]]], ['raise', 1, [[1, ['i64', 1]]]]),
+    'drop': ([[1, ['s', '00ff']]], ['ret', ['i32', -2]]),
+    'seal': ([[1, ['i64', 2 ** 40]]], ['ret', ['s', 'e697a5']]),
+    'balance': ([[1, ['s', '6163']], [3, ['st', [[2, ['s', '']]]]]], ['ret', ['i64', 0]]),
+}
+
+
+def exh_answer(name, method):
+    """(arguments, handler behaviour) of the systematic part for a method of interface `name`"""
+    return (EXH_ANSWER_OTHER if FAMILY[name] == 2 else EXH_ANSWER)[method]
 
 
 def exhaustive_multi(tier, shard, shards):
@@ -1071,9 +1159,19 @@ def handler_tags(hb, success, declared, tags):
         tags.add('handler-crash')
 
 
+def script_sides(script):
+    """-> (interface names of the clients, judged side, side of call k).  kind multi: one client;
+    kind two: two clients in one process, the case reports the history of the judged one."""
+    if script.get('kind') == 'two':
+        side = script['side']
+        return list(script['ifaces']), int(script.get('judge', 0)), (lambda k: side[k] if k < len(side) else 0)
+    return [script['iface']], 0, (lambda k: 0)
+
+
 def run_multi(script):
     import rt
     install()
+    isolate()
     from thrift.protocol.TBinaryProtocol import TBinaryProtocolFactory, TBinaryProtocolAcceleratedFactory
     from scales.asynchronous import AsyncResult
     from scales.constants import ChannelState, SinkProperties
@@ -1081,18 +1179,15 @@ def run_multi(script):
     from scales.scales_socket import ScalesSocket
     from scales.sink import ClientMessageSink
     from scales.thrift.sink import ThriftSerializerSink, SocketTransportSink
-    name = script['iface']
-    mod, Iface, _ = iface(name)
-    methods = IFACE_METHODS[name]
+    names, judge, side_of = script_sides(script)
+    two = len(names) > 1
     tags = {'multi'}
     steps = []
-    cfg = ' '.join(sig_text(mod, m) for m in methods)
     FakeHandle.send_caps = script.get('send_caps')
-    pf = TBinaryProtocolAcceleratedFactory() if script.get('accel') else TBinaryProtocolFactory()
-    props = {SinkProperties.Endpoint: Ep, SinkProperties.ServiceInterface: Iface, SinkProperties.Label: 'c14'}
+    accel = script.get('accel')
+    accel = [bool(x) for x in accel] if isinstance(accel, list) else [bool(accel)] * len(names)
     wrap = bool(script.get('wrap'))
     tags.add('varz-wrapper' if wrap else 'raw-socket')
-    tags.add('accel' if script.get('accel') else 'pure-python')
     if script.get('send_caps'):
         tags.add('partial-sends')
 
@@ -1100,14 +1195,15 @@ def run_multi(script):
         """balancer + pool reduced to their effect on this property: which connection a call
         travels on.  Every connection is a real SocketTransportSink."""
 
-        def __init__(self):
+        def __init__(self, props):
             super(Router, self).__init__()
+            self.props = props
             self.transports, self.handles, self.route = [], [], 0
             self.hold, self.parked = None, {}
 
         def add(self):
             if wrap:
-                t = SocketTransportSink.Builder().CreateSink(props)       # VarzSocketWrapper(ScalesSocket)
+                t = SocketTransportSink.Builder().CreateSink(self.props)       # VarzSocketWrapper(ScalesSocket)
             else:
                 t = SocketTransportSink(ScalesSocket(Ep.host, Ep.port), 'c14')
             t.Open()
@@ -1139,30 +1235,66 @@ def run_multi(script):
         def AsyncProcessResponse(self, sink_stack, context, stream, msg):
             pass
 
-    router = Router()
-
     class RouterProvider(object):
+        def __init__(self, router):
+            self.router = router
+
         def CreateSink(self, properties):
-            return router
+            return self.router
 
-    ser = ThriftSerializerSink.Builder(protocol_factory=pf)
-    ser.next_provider = RouterProvider()
-    disp = MessageDispatcher(Iface, ser, None, props)
-    disp.Open()
-    rt.drain()
+    class Client(object):
+        """one client of the process: its interface, its dispatcher above its own serializer sink
+        (built as a client's builder does: ThriftSerializerSink.Builder(...) with the interface in the
+        sink properties) above its own connections"""
 
-    calls = {}            # k -> dict(method, conn, ar, stream, pos, answered, closed, done)
-    owner = {}            # conn -> last call sent on it
-    dead = set()
-    order = []            # call ids in the order they were made
+        def __init__(self, idx, name):
+            self.idx, self.name = idx, name
+            self.mod, self.Iface, _ = iface(name)
+            self.methods = IFACE_METHODS[name]
+            self.owner = {}           # conn -> last call sent on it
+            self.dead = set()
+            props = {SinkProperties.Endpoint: Ep, SinkProperties.ServiceInterface: self.Iface,
+                     SinkProperties.Label: 'c14'}
+            self.router = Router(props)
+            pf = TBinaryProtocolAcceleratedFactory() if accel[idx] else TBinaryProtocolFactory()
+            ser = ThriftSerializerSink.Builder(protocol_factory=pf)
+            ser.next_provider = RouterProvider(self.router)
+            self.disp = MessageDispatcher(self.Iface, ser, None, props)
+            self.disp.Open()
+            rt.drain()
+
+    clients = [Client(i, n) for i, n in enumerate(names)]
+    judged = clients[judge]
+    cfg = ' '.join(sig_text(judged.mod, m) for m in judged.methods)
+    tags.add('accel' if accel[judge] else 'pure-python')
+    if two:
+        tags.add('two-families')
+        tags.add('judged: %s-family' % ('first' if judge == 0 else 'second'))
+        if all(n in INHERITING for n in names):
+            tags.add('both-interfaces-inherit')
+        if accel[0] != accel[1]:
+            tags.add('two-families-different-codec-backends')
+
+    # (side, method) of every call the script makes
+    script_calls = set((side_of(e[1]), e[2]) for e in script['events'] if e[0] == 'call')
+    calls = {}            # k -> dict(side, method, conn, ar, stream, pos, answered, closed, done)
+    order = []            # call ids in the order they were made (all sides)
+
+    def record(k, op, obs):
+        """the case is the history of the judged serializer"""
+        if calls[k]['side'] == judge:
+            steps.append([op, obs])
 
     def pending(k):
         c = calls[k]
         return not c['done']
 
+    def same_side(k):
+        return [j for j in order if calls[j]['side'] == calls[k]['side']]
+
     def observe(k):
         c = calls[k]
-        out = canon_outcome(c['ar'], mod, c['method'])
+        out = canon_outcome(c['ar'], clients[c['side']].mod, c['method'])
         if out == '(err F (other Pending))':
             return '(out pending)'
         return '(out %s)' % out
@@ -1172,38 +1304,79 @@ def run_multi(script):
         if c['answered']:
             return
         c['answered'] = True
-        steps.append(['answer %d %s' % (k, reply_desc(mod, c['method'], c['handler'])),
-                      '(frame x%s)' % c['stream'].hex()])
+        record(k, 'answer %d %s' % (k, reply_desc(clients[c['side']].mod, c['method'], c['handler'])),
+               '(frame x%s)' % c['stream'].hex())
 
     def deliver(k, n):
         c = calls[k]
+        cl = clients[c['side']]
+        mine = c['side'] == judge
         n = min(n, len(c['stream']) - c['pos'])
         if n <= 0:
             return
         ensure_answer(k)
-        open_others = [j for j in order if j != k and pending(j)]
-        router.handles[c['conn']].feed(c['stream'][c['pos']:c['pos'] + n])
+        open_others = [j for j in same_side(k) if j != k and pending(j)]
+        open_foreign = [j for j in order if calls[j]['side'] != c['side'] and calls[j]['sent'] and pending(j)]
+        cl.router.handles[c['conn']].feed(c['stream'][c['pos']:c['pos'] + n])
         c['pos'] += n
         c['pieces'] += 1
         rt.drain()
         if c['pos'] >= len(c['stream']):
             c['done'] = True
-            if any(j < k for j in open_others):
-                tags.add('reply-overtakes-earlier-call')
-            later = [j for j in order if j > k]
-            if any(calls[j]['method'] != c['method'] for j in later):
-                tags.add('reply-after-later-call-of-other-method')
-            if later:
-                tags.add('reply-after-later-call')
-        if open_others and any(calls[j]['pos'] > 0 for j in open_others) and c['pos'] < len(c['stream']):
+            if mine:
+                if any(j < k for j in open_others):
+                    tags.add('reply-overtakes-earlier-call')
+                later = [j for j in same_side(k) if j > k]
+                if any(calls[j]['method'] != c['method'] for j in later):
+                    tags.add('reply-after-later-call-of-other-method')
+                if later:
+                    tags.add('reply-after-later-call')
+                if open_foreign:
+                    tags.add('reply-while-other-family-call-open')
+                if any(calls[j]['method'] == c['method'] for j in open_foreign):
+                    tags.add('reply-while-same-name-call-of-other-family-open')
+                if any(calls[j]['side'] != c['side'] and calls[j]['method'] == c['method'] and calls[j]['done']
+                       and calls[j]['pos'] > 0 for j in order):
+                    tags.add('reply-after-same-name-reply-of-other-family')
+        if mine and open_others and any(calls[j]['pos'] > 0 for j in open_others) and c['pos'] < len(c['stream']):
             tags.add('interleaved-chunks')
-        steps.append(['chunk %d %d' % (k, n), observe(k)])
+        if mine and c['pos'] < len(c['stream']) and any(calls[j]['pos'] > 0 for j in open_foreign):
+            tags.add('interleaved-chunks-across-families')
+        record(k, 'chunk %d %d' % (k, n), observe(k))
+
+    def py_args(args_cls, args):
+        entries = [x for x in args_cls.thrift_spec if x is not None]
+        given = dict((fid, v) for fid, v in args)
+        return tuple(to_py(given.get(x[0]), x[1], x[3]) for x in entries)
+
+    def serialized(k):
+        """the call goes through its client's serializer now: two-family bookkeeping"""
+        c = calls[k]
+        c['serial'] = len([j for j in order if calls[j].get('serial') is not None])
+        if not two:
+            return
+        if c['serial'] == 0:
+            tags.add('first-used: %s-family' % ('first' if c['side'] == 0 else 'second'))
+        if c['side'] != judge:
+            return
+        if c['method'] in clients[1 - judge].methods:
+            tags.add('method-name-exists-in-other-family')
+        if (1 - judge, c['method']) in script_calls:
+            # both clients call a method of this name in this script
+            tags.add('same-name-other-family')
+            if sig_text(clients[0].mod, c['method']) != sig_text(clients[1].mod, c['method']):
+                tags.add('same-name-other-result-shape')
+            users = [calls[j]['side'] for j in order if calls[j]['method'] == c['method']]     # k itself is in `order`
+            tags.add('same-name-used-first-by-%s-family' % ('judged' if users[0] == judge else 'other'))
 
     def send(k):
         """the call reaches a connection (straight away, or when the pool takes it off its queue)"""
         cl = calls[k]
         if cl['sent']:
             return
+        client = clients[cl['side']]
+        mine = cl['side'] == judge
+        router, owner, dead, mod = client.router, client.owner, client.dead, client.mod
         method, conn, args, handler = cl['method'], cl['want'], cl['args'], cl['handler']
         args_cls, result_cls, success, declared = method_info(mod, method)
 
@@ -1215,51 +1388,56 @@ def run_multi(script):
         cands = [conn] + list(range(len(router.transports)))
         cands = [c for c in cands if c < len(router.transports) and free(c)]
         c = cands[0] if cands else router.add()
-        if c in owner:
+        if c in owner and mine:
             tags.add('conn-reused')
         h = router.handles[c]
         before = len(h.written)
         if cl['parked']:
-            others = [j for j in order if j != k and calls[j]['serial'] > cl['serial']]
-            if others:
+            others = [j for j in same_side(k) if j != k and calls[j]['serial'] is not None
+                      and calls[j]['serial'] > cl['serial']]
+            if others and mine:
                 tags.add('sent-after-later-call-was-serialized')
             if k in router.parked:
                 router.release(k, c)
             # else the call never came out of the serializer sink (it failed there): nothing is sent
         else:
             router.route = c
-            entries = [x for x in args_cls.thrift_spec if x is not None]
-            given = dict((fid, v) for fid, v in args)
-            pyargs = tuple(to_py(given.get(x[0]), x[1], x[3]) for x in entries)
-            cl['ar'] = disp.DispatchMethodCall(method, pyargs, {})
+            serialized(k)
+            cl['ar'] = client.disp.DispatchMethodCall(method, py_args(args_cls, args), {})
         rt.drain()
         sent = bytes(h.written[before:])
-        decoded, reply, seen = serve(name, sent[4:], handler) if len(sent) >= 4 else (None, None, {})
-        op = 'call %d %d %d %s' % (k, methods.index(method), c, ffmt(args))
+        decoded, reply, seen = serve(client.name, sent[4:], handler) if len(sent) >= 4 else (None, None, {})
+        op = 'call %d %d %d %s' % (k, client.methods.index(method), c, ffmt(args))
         if decoded is None:
-            steps.append([op, '(call x%s none)' % sent.hex()])
+            record(k, op, '(call x%s none)' % sent.hex())
         else:
-            steps.append([op, '(call x%s x%s %d %s)' % (sent.hex(), decoded[0].hex(), seen['mtype'],
-                                                         ffmt(decoded[1]))])
-        open_now = [j for j in order if j != k and calls[j]['sent'] and pending(j)]
-        if open_now:
-            tags.add('overlap')
-            if any(calls[j]['method'] != method for j in open_now):
-                tags.add('overlap-different-methods')
-            if len(open_now) >= 2:
-                tags.add('three-open')
-        value_tags(args, tags)
-        handler_tags(handler, success, declared, tags)
-        iface_tags(name, mod, method, tags)
-        if name in DERIVED_IFACES and any((inheritance_depth(mod, calls[j]['method']) == 0)
-                                          != (inheritance_depth(mod, method) == 0) for j in open_now):
-            tags.add('overlap-own-and-inherited')
+            record(k, op, '(call x%s x%s %d %s)' % (sent.hex(), decoded[0].hex(), seen['mtype'], ffmt(decoded[1])))
+        open_now = [j for j in same_side(k) if j != k and calls[j]['sent'] and pending(j)]
+        open_foreign = [j for j in order if calls[j]['side'] != cl['side'] and calls[j]['sent'] and pending(j)]
+        if mine:
+            if open_now:
+                tags.add('overlap')
+                if any(calls[j]['method'] != method for j in open_now):
+                    tags.add('overlap-different-methods')
+                if len(open_now) >= 2:
+                    tags.add('three-open')
+            if open_foreign:
+                tags.add('overlap-across-families')
+                if any(calls[j]['method'] == method for j in open_foreign):
+                    tags.add('same-name-open-at-once-in-both-families')
+            value_tags(args, tags)
+            handler_tags(handler, success, declared, tags)
+            iface_tags(client.name, mod, method, tags)
+            if client.name in INHERITING and any((inheritance_depth(mod, calls[j]['method']) == 0)
+                                                 != (inheritance_depth(mod, method) == 0) for j in open_now):
+                tags.add('overlap-own-and-inherited')
         if reply is None:
-            tags.add('oracle-rejected-call')
+            if mine:
+                tags.add('oracle-rejected-call')
             reply = b''
         cl.update({'conn': c, 'stream': (pack_i32(len(reply)) + reply) if reply else b'', 'sent': True})
         owner[c] = k
-        if len(router.transports) >= 3:
+        if mine and len(router.transports) >= 3:
             tags.add('three-conns')
 
     for e in script['events']:
@@ -1269,22 +1447,22 @@ def run_multi(script):
                 continue
             method, conn, args, handler = e[2], e[3], e[4], e[5]
             parked = len(e) > 6 and bool(e[6])
-            calls[k] = {'method': method, 'want': conn, 'conn': None, 'ar': None, 'args': args, 'handler': handler,
-                        'stream': b'', 'pos': 0, 'pieces': 0, 'answered': False, 'closed': False, 'done': False,
-                        'sent': False, 'parked': parked, 'serial': len(order)}
+            calls[k] = {'side': side_of(k), 'method': method, 'want': conn, 'conn': None, 'ar': None, 'args': args,
+                        'handler': handler, 'stream': b'', 'pos': 0, 'pieces': 0, 'answered': False, 'closed': False,
+                        'done': False, 'sent': False, 'parked': parked, 'serial': None}
             order.append(k)
             if parked:
                 # serialized now by the shared sink, held below it (as a call queued by a saturated pool,
                 # or waiting for a connection to open) until the script sends it
-                tags.add('parked')
-                args_cls = method_info(mod, method)[0]
-                entries = [x for x in args_cls.thrift_spec if x is not None]
-                given = dict((fid, v) for fid, v in args)
-                pyargs = tuple(to_py(given.get(x[0]), x[1], x[3]) for x in entries)
-                router.hold = k
-                calls[k]['ar'] = disp.DispatchMethodCall(method, pyargs, {})
+                client = clients[calls[k]['side']]
+                if calls[k]['side'] == judge:
+                    tags.add('parked')
+                args_cls = method_info(client.mod, method)[0]
+                client.router.hold = k
+                serialized(k)
+                calls[k]['ar'] = client.disp.DispatchMethodCall(method, py_args(args_cls, args), {})
                 rt.drain()
-                router.hold = None
+                client.router.hold = None
             else:
                 send(k)
             continue
@@ -1300,42 +1478,166 @@ def run_multi(script):
             if e[2] == 'ones':
                 for _ in range(MULTI_ONES):
                     deliver(k, 1)
-                tags.add('one-byte-pieces')
+                if c['side'] == judge:
+                    tags.add('one-byte-pieces')
             deliver(k, len(c['stream']) - c['pos'])
         elif kind == 'close':
             c = calls[k]
-            if owner.get(c['conn']) != k or c['conn'] in dead:
+            client = clients[c['side']]
+            if client.owner.get(c['conn']) != k or c['conn'] in client.dead:
                 continue
-            if not c['answered']:
-                tags.add('closed-before-answer')
-            if not c['done']:
-                tags.add('server-closed-early')
-            router.handles[c['conn']].server_close()
+            if c['side'] == judge:
+                if not c['answered']:
+                    tags.add('closed-before-answer')
+                if not c['done']:
+                    tags.add('server-closed-early')
+            client.router.handles[c['conn']].server_close()
             rt.drain()
             c['closed'] = True
             c['done'] = True
-            dead.add(c['conn'])
-            steps.append(['close %d' % k, observe(k)])
+            client.dead.add(c['conn'])
+            record(k, 'close %d' % k, observe(k))
     for k in order:
-        if calls[k]['pieces'] > 1:
+        if calls[k]['pieces'] > 1 and calls[k]['side'] == judge:
             tags.add('chunked')
     errs = rt.take_errors()
     if errs:
         tags.add('hub-error')
         steps.append(['close 999', '(out (err F (other Hub-%s)))' % errs[0][0]])
-    disp.Close()
+    for client in clients:
+        client.disp.Close()
     rt.drain()
     rt.take_errors()
     return {'comp': SHARED, 'cfg': cfg, 'steps': steps, 'tags': sorted(tags)}
 
 
+# ====================================================================== two clients, two families, one process
+# script: {'kind': 'two', 'ifaces': [first-family interface, second-family interface], 'judge': 0 | 1,
+#          'side': [side of call k ...], 'accel': [bool, bool], 'wrap', 'send_caps', 'events': as kind multi}
+def shared_names(a, b):
+    """the method names two interfaces have in common"""
+    return [m for m in IFACE_METHODS[a] if m in IFACE_METHODS[b]]
+
+
+def gen_two(rng, tier):
+    r = rng.random()
+    first = 'derived' if r < 0.45 else 'derived2' if r < 0.85 else 'store' if r < 0.95 else 'hello'
+    second = 'other' if rng.random() < 0.88 else 'otherbase'
+    ifaces = [first, second]
+    mods = [iface(n)[0] for n in ifaces]
+    shared = shared_names(first, second)
+    focus = rng.choice(shared) if shared and rng.random() < 0.7 else None
+    start = rng.randrange(2)               # which family is used first
+    ncalls = rng.choice([2, 2, 3, 3, 4, 5, 6])
+    nconn = rng.choice([1, 2, 2, 3])
+    events, pending, side, made = [], [], [], 0
+    while made < ncalls or pending:
+        r = rng.random()
+        if made < ncalls and (not pending or r < 0.45):
+            sd = (start + made) % 2 if made < 2 else rng.randrange(2)
+            if focus is not None and (made < 2 or rng.random() < 0.4):
+                method = focus                                   # the same name on both sides
+            elif shared and rng.random() < 0.5:
+                method = rng.choice(shared)                      # a name the other family has as well
+            else:
+                method = gen_method(rng, ifaces[sd])
+            if method not in IFACE_METHODS[ifaces[sd]]:
+                method = gen_method(rng, ifaces[sd])
+            args_cls = method_info(mods[sd], method)[0]
+            args = gen_fields(rng, tier, args_cls.thrift_spec, rng.choice([0.0, 0.2, 0.5]))
+            handler = gen_handler(rng, tier, mods[sd], method)
+            ev = ['call', made, method, rng.randrange(nconn), args, handler]
+            if rng.random() < 0.2:
+                ev.append(True)
+            events.append(ev)
+            pending.append(made)
+            side.append(sd)
+            made += 1
+            continue
+        k = rng.choice(pending)
+        r = rng.random()
+        if r < 0.08:
+            events.append(['send', k])
+            continue
+        if r < 0.5:
+            events.append(['rest', k, 'ones' if rng.random() < 0.12 else 'all'])
+            pending.remove(k)
+        elif r < 0.94:
+            events.append(['chunk', k, rng.choice([1, 2, 3, 4, 5, 7, 11, 16, 33, 100])])
+        else:
+            events.append(['close', k])
+            pending.remove(k)
+    return {'kind': 'two', 'ifaces': ifaces, 'judge': rng.randrange(2), 'side': side,
+            'accel': [rng.random() < 0.5, rng.random() < 0.5], 'wrap': rng.random() < 0.65,
+            'send_caps': rng.choice([None, None, None, [1], [3, 1, 100], [7]]), 'events': events}
+
+
+def exhaustive_two(tier, shard, shards):
+    """every method name an interface of the Store family with service inheritance shares with Ledger
+    (extends Journal): one call of that name through each client's serializer x which family is used
+    first x which side is judged x {both open at once, the replies in either order | one after the
+    other | one after the other and then the first family again | the first call parked below its
+    serializer while the other family's call is serialized and sent}"""
+    k = 0
+    for first in ('derived', 'derived2'):
+        ifaces = [first, 'other']
+        for name in shared_names(first, 'other'):
+            for start in (0, 1):
+                sides = [start, 1 - start]
+
+                def call(i, sd, parked=False):
+                    args, handler = exh_answer(ifaces[sd], name)
+                    return ['call', i, name, 0, args, handler] + ([True] if parked else [])
+                shapes = [
+                    ([call(0, sides[0]), call(1, sides[1]), ['rest', 0, 'all'], ['rest', 1, 'all']], sides),
+                    ([call(0, sides[0]), call(1, sides[1]), ['rest', 1, 'all'], ['rest', 0, 'all']], sides),
+                    ([call(0, sides[0]), ['rest', 0, 'all'], call(1, sides[1]), ['rest', 1, 'all']], sides),
+                    ([call(0, sides[0]), ['rest', 0, 'all'], call(1, sides[1]), ['rest', 1, 'all'],
+                      call(2, sides[0]), ['rest', 2, 'all']], sides + [sides[0]]),
+                    ([call(0, sides[0], True), call(1, sides[1]), ['send', 0], ['rest', 1, 'all'], ['rest', 0, 'all']],
+                     sides),
+                ]
+                if tier == 'thorough':
+                    ilv = [call(0, sides[0]), call(1, sides[1])]
+                    for _ in range(8):
+                        ilv += [['chunk', 0, 3], ['chunk', 1, 2]]
+                    shapes.append((ilv + [['rest', 0, 'all'], ['rest', 1, 'all']], sides))
+                for events, side in shapes:
+                    for judge in (0, 1):
+                        k += 1
+                        if k % shards != shard:
+                            continue
+                        yield {'kind': 'two', 'ifaces': ifaces, 'judge': judge, 'side': side,
+                               'accel': [bool(k % 2), bool((k // 2) % 2)], 'wrap': bool(k % 3), 'send_caps': None,
+                               'events': events}
+
+
+def shrink_two(script):
+    for s in shrink_multi(script):
+        yield s
+    if isinstance(script.get('accel'), list) and any(script['accel']):
+        yield dict(script, accel=[False, False])
+
+
 # ====================================================================== entry points
 def is_multi(script):
-    return script.get('kind') == 'multi'
+    return script.get('kind') in ('multi', 'two')
+
+
+_twins = []
 
 
 def gen_script(rng, tier):
-    if rng.random() < 0.3:
+    """a two-family script is always followed by its twin: the same events, the other side judged
+    (about a fifth of the scripts are two-family ones)"""
+    if _twins:
+        return _twins.pop()
+    r = rng.random()
+    if r < 0.11:
+        s = gen_two(rng, tier)
+        _twins.append(dict(s, judge=1 - s['judge']))
+        return s
+    if r < 0.11 + 0.89 * 0.3:
         return gen_multi(rng, tier)
     return gen_single(rng, tier)
 
@@ -1345,9 +1647,13 @@ def exhaustive(tier, shard, shards):
         yield s
     for s in exhaustive_multi(tier, shard, shards):
         yield s
+    for s in exhaustive_two(tier, shard, shards):
+        yield s
 
 
 def shrink(script):
+    if script.get('kind') == 'two':
+        return shrink_two(script)
     return shrink_multi(script) if is_multi(script) else shrink_single(script)
 
 
